@@ -1116,6 +1116,11 @@ func (a area) runFamilyCase(c *core.Ctx, r *rand.Rand) {
 			} else {
 				fc.viewAll()
 			}
+			if r.Intn(4) == 0 {
+				// restart between two steps: the version comes back from the manifest, every reader is cold
+				fc.reopen()
+				fc.viewAll()
+			}
 			continue
 		}
 		// flush: a subset of the metrics (so files cover different key ranges)
@@ -1560,8 +1565,12 @@ func (a area) Run(c *core.Ctx) error {
 			a.scenarioMixedShapes(c)
 		case i == 14:
 			a.scenarioOpenFault(c)
+		case i == 15:
+			a.scenarioArmConsume(c)
 		case i >= 13 && i%10 == 3:
 			a.runDamagedCase(c, r)
+		case i >= 17 && i%10 == 7:
+			a.runDecoderSteps(c, r)
 		case i%2 == 1:
 			a.runMergeCase(c, r)
 		default:
